@@ -79,4 +79,6 @@ package adapter
 //@ macro ibcAdapterWF(a) = a.logger != nil && a.BaseController != nil && a.parser != nil && tag(a.parser.JSONParser.cdc) != 0
 //@ typeinv IBCAdapter ibcAdapterWF NewIBCAdapter
 //@ func NewIBCAdapter(cdc, logger) (result, err)
+//   the IBC adapter reports PROTOCOL_IBC (C05: it is filed under that key, see InjectAdapterControllers)
+//@   ensures[C05] err == nil ==> result != nil && result.BaseController != nil && result.BaseController.id == core.PROTOCOL_IBC
 //@   ensures[C11,C14,C17] err == nil ==> result != nil && ibcAdapterWF(result)
